@@ -1,4 +1,69 @@
-(* placeholder until the proofs are in *)
-From Tickit Require Import RBDefs RBSpec RBCopyDefs RBCopySpec.
-Example C13_nonvacuous : True.
-Proof. exact I. Qed.
+(* Property C13: copyrect / moverect / blit preserve content cell for cell and do not disturb
+   the saved-state stack, cursor, clip or translation.
+
+   Vocabulary: copyrect_op / moverect_op / blit = the model of the (repaired) C in RBCopyDefs.v;
+   a_copyrect / a_moverect / a_blit = the cell-wise specification in RBCopySpec.v; Inv as for
+   C03; rect_in s r = rectangle r lies inside buffer s (and has cols >= 0);
+   keeps s s' = Inv s' /\ aux s' = aux s /\ same size   (aux = cursor, translation, clip, pen,
+   depth and the whole saved-state stack).
+   This file contains nothing but the property theorems, each closed by [exact <lemma>]. *)
+From Coq Require Import ZArith List Bool.
+From Tickit Require Import RectDefs RBDefs RBSpec RBLemmas RBAbsLemmas RBInv RBProofs RBCopyDefs RBCopySpec RBCopyProofs.
+Import ListNotations.
+Local Open Scope Z_scope.
+
+(* copyrect, any source rectangle inside the buffer, any destination, any overlap: it never
+   faults or runs out of fuel, keeps every row well formed, and leaves the auxiliary state --
+   in particular the caller's saved-state stack -- exactly as it was. *)
+Theorem C13_copy_aux_unchanged : forall s dr sr,
+  Inv s -> rect_in s sr -> exists s', copyrect_op s dr sr = Ok s' /\ keeps s s'.
+Proof. exact copyrect_op_ok. Qed.
+Print Assumptions C13_copy_aux_unchanged.
+
+Theorem C13_blit_aux_unchanged : forall dst src,
+  Inv dst -> Inv src -> exists dst', blit dst src = Ok dst' /\ keeps dst dst'.
+Proof. exact blit_ok. Qed.
+Print Assumptions C13_blit_aux_unchanged.
+
+(* moverect: the same, for every call that returns.  (The vacated-area computation goes through
+   the model of rectset.c, which is fuelled; that it returns is the subject of C05 and is
+   covered here by the correspondence check only.) *)
+Theorem C13_move_aux_unchanged_partial : forall s dr sr s',
+  Inv s -> rect_in s sr -> moverect_op s dr sr = Ok s' -> keeps s s'.
+Proof. exact moverect_op_keeps. Qed.
+Print Assumptions C13_move_aux_unchanged_partial.
+
+(* One step of the column loop, for any position inside the rectangle: it succeeds, is
+   balanced, and moves on (termination of the loop, in both directions). *)
+Theorem C13_copy_span : forall (samerb : bool) (src dst : rb) line col sr lineoffs coloffs (leftwards copy_skip : bool),
+  Inv dst -> Inv src ->
+  let srcb := if samerb then dst else src in
+  0 <= line < rb_lines srcb -> 0 <= left sr -> left sr <= col < right sr -> right sr <= rb_cols srcb ->
+  exists dst' col', copy_span samerb src dst line col sr lineoffs coloffs leftwards copy_skip = Ok (dst', col') /\
+    keeps dst dst' /\
+    (if leftwards then left sr - 1 <= col' < col else col < col').
+Proof. exact copy_span_ok. Qed.
+Print Assumptions C13_copy_span.
+
+(* NOT PROVED (full statements; the correspondence check carries them as testing, exhaustively
+   over every rectangle pair inside a 2x6 buffer for 9 prepared contents, plus random programs):
+
+   C13_copy_full : forall s dr sr s',
+     Inv s -> ainv (abs_rb s) -> rect_in s sr -> xl (aux s) = 0 -> xc (aux s) = 0 ->
+     copyrect_op s dr sr = Ok s' -> abs_rb s' = a_copyrect (abs_rb s) dr sr.
+   C13_move_full : ... moverect_op s dr sr = Ok s' -> abs_rb s' = a_moverect (abs_rb s) dr sr.
+   C13_blit_full : forall dst src dst',
+     Inv dst -> Inv src -> ainv (abs_rb dst) -> xl (aux dst) = 0 -> xc (aux dst) = 0 ->
+     blit dst src = Ok dst' -> abs_rb dst' = a_blit (abs_rb dst) (abs_rb src).
+
+   What is missing: the loop-level composition.  Each span step is an instance of the C03
+   refinement lemmas (put_substr_ok, erase_ok, skip_ok, linecell_ok, put_char_ok inside a
+   balanced pen bracket), so its effect on the abstraction is known; what is not yet proved is
+   the bookkeeping that, at every iteration, the not-yet-visited source cells still hold their
+   original content (for copies within one line of one buffer), and hence that the composition
+   of the steps is the cell-wise copy. *)
+
+Example C13_nonvacuous :
+  exists s v, run (rb_new 2 6) [OTextAt 0 0 [65; 66; 67; 68; 69; 70]; OCharAt 0 2 120; OSave] = Ok (s, v) /\
+    Inv s /\ rect_in s (mkRect 0 1 1 4) /\ depth (aux s) = 1.
+Proof. exact RBCopyProofs.nonvacuous. Qed.
